@@ -31,6 +31,30 @@ func rowOf(c interface{}, i int) setter {
 	panic(fmt.Sprintf("rowOf: %T", c))
 }
 
+// rowMirror calls RevComp (or Reverse) on row i through the row view.
+func rowMirror(c interface{}, i int, complement bool) {
+	type rc interface {
+		RevComp()
+		Reverse()
+	}
+	var r rc
+	switch v := c.(type) {
+	case *alignment.Seq:
+		r = v.Row(i).(rc)
+	case *alignment.QSeq:
+		r = v.Row(i).(rc)
+	case *multi.Multi:
+		r = v.Row(i).(rc)
+	default:
+		panic(fmt.Sprintf("rowMirror: %T", c))
+	}
+	if complement {
+		r.RevComp()
+	} else {
+		r.Reverse()
+	}
+}
+
 func cloneOf(c interface{}) interface{} {
 	switch v := c.(type) {
 	case *linear.Seq:
